@@ -36,6 +36,22 @@ pub fn eval_point(p: &Point, st: &mut Stats) -> Result<(), String> {
         catch(|| o.match_against(q)).map_err(|m| format!("match_against panicked: {m}"))?;
     check_step(&o, q, consumed, &next, moved, remaining)
         .map_err(|e| format!("match_against({}, incoming {}): {}", brief(&o), q, e))?;
+    // the same order carrying a caller-defined payload (OrderType<T>): same outcome, payload intact
+    {
+        let payload: u64 = 0xA11C_E000 ^ q;
+        let op = o.map_extra_fields(|_| payload);
+        let (c2, n2, m2, r2) = catch(|| op.match_against(q)).map_err(|m| format!("match_against panicked on OrderType<u64>: {m}"))?;
+        let n2_unit = n2.map(|x| {
+            let keep = *x.extra_fields() == payload;
+            (x.map_extra_fields(|_| ()), keep)
+        });
+        if (c2, n2_unit.as_ref().map(|x| x.0), m2, r2) != (consumed, next, moved, remaining) {
+            return Err(format!("match_against({}, incoming {}) differs when the order carries extra fields", brief(&o), q));
+        }
+        if let Some((_, false)) = n2_unit {
+            return Err(format!("match_against({}, incoming {}) changed the order's extra fields", brief(&o), q));
+        }
+    }
     let nt = nontrivial(&o, q);
     if nt {
         st.nontrivial(hash_of(p));
@@ -390,7 +406,7 @@ pub fn run(cfg: &RunCfg) -> Report {
         // the same rules seen through PriceLevel::match_order on levels holding many orders
         // (E1 histories; oracle: after every match each traded / visited order rests exactly as
         // the reference rule says)
-        let n = cfg.cases(150_000, 6_000_000);
+        let n = cfg.cases(100_000, 4_000_000);
         let tier = cfg.tier;
         rep.absorb(
             "history",
@@ -419,6 +435,8 @@ pub fn run(cfg: &RunCfg) -> Report {
 
 fn c05h_cfg(t: Tier) -> crate::seq::HistCfg {
     let mut c = crate::seq::HistCfg::general(t.pick(40, 100));
+    c.churn_pow = t.pick(14, 17);
+    c.burst_pow = t.pick(10, 13);
     c.w_rebuild = 0;
     c.w_read = 0;
     c.w_bulk = 2;
